@@ -903,6 +903,7 @@ def rule_gate_for(ctx, rep, members):
 
 
 def run(ctx, rep):
+    balance.rule_unique_view(ctx, rep)  # nothing lends out the shared handle inside a UniqueArc: "sole owner by type" stays true
     rule_gate(ctx, rep)
     from . import c02 as _c02
 
